@@ -3,6 +3,7 @@ CONSTANTS
   Locked = TRUE
   Bodies <- BodiesAll
   Modes <- AllModes
+  ValueChoices <- TwoValueLists
   Seconds <- NoSecond
   TickMs <- Ticks2
   MaxTicks = 8
